@@ -508,6 +508,8 @@ class Engine:
                 # called the original function -- that body belongs to the unit and is executed, once
                 self.inner_pending = None
                 c = None
+            if c is not None and isinstance(f, Wrapped) and f.kind == "contextmanager":
+                c = None          # calling a context manager only creates it; its contract is applied by `with`
             if c is not None and c.callee and (self.depth > 0 or qn != self.unit) and qn not in self.inline:
                 return c.apply(self, f, list(args), kwargs)
         if isinstance(f, Wrapped):
@@ -836,6 +838,7 @@ class Engine:
         f = cm.func
         c = self.contracts.get(f.qualname)
         if c is not None and c.callee and f.qualname != self.unit and getattr(c, "as_context", None) is not None:
+            entered.append(1)
             c.as_context(self, f, cm.args, cm.kwargs, body_cb)
         else:
             self.call_func(f, cm.args, cm.kwargs, yield_cb=body_cb)
